@@ -153,7 +153,10 @@ impl Prop for C11 {
         p.allow_no_gt = true;
         p.kind_w = [4, 3, 2, 3, 1, 1, 3, 3, 1, 1, 3, 2, 2, 3];
         if idx % 16 == 15 {
-            p.allow_ploidy = false;
+            // whole / parts / permutation of a process run must all succeed to be compared: no
+            // non-diploid call in a selected sample; in an unselected column it is legal input
+            // (the column is never looked at) and stays in
+            p.kind_w[gen::K_PLOIDY_SEL as usize] = 0;
             let (callset, cfg) = gen::gen_callset(&mut rng, &p);
             let n = callset.recs.len();
             let mut perm: Vec<usize> = (0..n).collect();
@@ -578,15 +581,20 @@ fn run_l2(callset: &CallSet, cfg: &Config, split: usize, perm: &[usize], contain
         results.push(r);
     }
     if !results.iter().all(|r| r.ok()) {
-        // e.g. inadmissible projection: all four must then fail alike
-        if results.iter().any(|r| r.ok()) {
+        // A failure is either a matter of the configuration (inadmissible projection: all four fail)
+        // or of one record (a non-diploid call that the container makes visible, e.g. the width of
+        // a BCF genotype vector even when the odd call sits in an unselected column: the run fails
+        // exactly where that record is). Both obey: the whole fails iff one of its parts fails, and a
+        // permutation fails iff the original order does.
+        let ok: Vec<bool> = results.iter().map(|r| r.ok()).collect();
+        if ok[0] != (ok[1] && ok[2]) || ok[3] != ok[0] {
             out.violate(
                 "l2_exit_differs",
                 "C11 L2 exit status differs between whole, parts and permutation".into(),
                 format!("{:?}", results.iter().map(|r| r.status_class()).collect::<Vec<_>>()),
             );
         } else {
-            out.count("l2.config_rejected", 1);
+            out.count(if ok.iter().any(|&x| x) { "l2.record_rejected" } else { "l2.config_rejected" }, 1);
         }
         return;
     }
